@@ -391,6 +391,7 @@ pub fn gen_case(rng: &mut Rng) -> AvroCase {
 
 /// What the writer produced: the byte stream, per-row boundaries for the `Encoder` modes,
 /// and the Avro schema JSON the data was encoded with.
+#[derive(Clone)]
 pub struct AvroBytes {
     pub bytes: Vec<u8>,
     pub rows: Option<Vec<(usize, usize)>>,
@@ -465,13 +466,18 @@ pub fn write_avro(c: &AvroCase) -> Result<AvroBytes, String> {
 
 /// Read the bytes back with arrow-avro (`None` for framings arrow-avro has no reader for).
 pub fn read_avro(c: &AvroCase, w: &AvroBytes) -> Option<Result<Vec<RecordBatch>, String>> {
+    read_avro_with(&c.opts, w)
+}
+
+/// `read_avro` for callers that only hold the options (e.g. on another thread).
+pub fn read_avro_with(opts: &AvroOpts, w: &AvroBytes) -> Option<Result<Vec<RecordBatch>, String>> {
     let rb = || {
         ReaderBuilder::new()
-            .with_batch_size(c.opts.batch_size)
-            .with_utf8_view(c.opts.utf8_view)
-            .with_strict_mode(c.opts.strict)
+            .with_batch_size(opts.batch_size)
+            .with_utf8_view(opts.utf8_view)
+            .with_strict_mode(opts.strict)
     };
-    match c.opts.framing {
+    match opts.framing {
         Framing::Ocf(_) => Some((|| {
             let r = rb().build(Cursor::new(w.bytes.clone())).map_err(|e| e.to_string())?;
             let mut out = Vec::new();
@@ -483,7 +489,7 @@ pub fn read_avro(c: &AvroCase, w: &AvroBytes) -> Option<Result<Vec<RecordBatch>,
         Framing::EncoderBinary => None,
         _ => Some((|| {
             let avro = AvroSchema::new(w.schema_json.clone());
-            let store = match c.opts.framing {
+            let store = match opts.framing {
                 Framing::SoeId(i) => {
                     let mut s = SchemaStore::new_with_type(FingerprintAlgorithm::Id);
                     s.set(Fingerprint::Id(i), avro).map_err(|e| e.to_string())?;
@@ -667,6 +673,13 @@ pub fn apache_matches(dt: &DataType, v: &Val, av: &AV) -> Result<(), (String, St
         _ => av,
     };
     let bad = || Err((json::sig_class(dt), format!("{dt}: input {v:?} decoded by apache-avro as {av:?}")));
+    // everything below an encoding is attributed to the encoding
+    if let Dictionary(_, vt) = dt {
+        return apache_matches(vt, v, av).map_err(|(_, m)| ("Dict".to_string(), m));
+    }
+    if let RunEndEncoded(_, vf) = dt {
+        return apache_matches(vf.data_type(), v, av).map_err(|(_, m)| ("REE".to_string(), m));
+    }
     if v.is_null() {
         return if matches!(av, AV::Null) { Ok(()) } else { bad() };
     }
@@ -1029,28 +1042,23 @@ fn rt_case(ctx: &mut Ctx, c: &AvroCase) {
     } else {
         None
     };
-    let null2 = "";
     if o.null_second && matches!(o.framing, Framing::Ocf(_)) {
         // WriterBuilder documents a supplied `avro.schema` as used verbatim
         let needle = w.schema_json.as_bytes();
         if !w.bytes.windows(needle.len()).any(|x| x == needle) {
             ctx.eval();
             ctx.violation(
-                "C17|avro|write|ocf|supplied-schema-not-in-header",
+                "C17|avro|write|supplied-schema-not-in-header",
                 detail("the OCF header does not advertise the supplied avro.schema the rows were encoded with"),
             );
             return;
         }
     }
-    let fr = match o.framing {
-        Framing::Ocf(_) => "ocf",
-        Framing::EncoderBinary => "bin",
-        _ => "soe",
-    };
+
     if let Some(r) = &w.rows {
         if r.len() != rows {
             ctx.violation(
-                &format!("C17|avro|write|{fr}|encoder-row-count"),
+                "C17|avro|write|encoder-row-count",
                 detail(&format!("Encoder produced {} rows for {rows} input rows", r.len())),
             );
             return;
@@ -1072,14 +1080,11 @@ fn rt_case(ctx: &mut Ctx, c: &AvroCase) {
         Err(p) => ctx.inconclusive(&format!("apache-avro panicked: {} @ {}", p.msg, p.loc)),
         Ok(Err(e)) => {
             ctx.eval();
-            let stage = e.split(':').next().unwrap_or("").to_string();
             let why = e.split_once(": ").map(|x| x.1).unwrap_or("");
-            let why = why.split(" (expected").next().unwrap_or("");
             ctx.violation(
-                &if has_ree {
-                    "C17|avro|apache|undecodable|REE".to_string()
-                } else {
-                    format!("C17|avro|apache|{fr}|{stage}-rejected|{}{null2}", norm_msg(why))
+                &match tag {
+                    Some(t) => format!("C17|avro|decode|failed|{t}"),
+                    None => format!("C17|avro|decode|independent-decoder-rejects|{}", err_family(why)),
                 },
                 detail(&format!("apache-avro cannot decode arrow-avro's output: {e}")),
             );
@@ -1090,7 +1095,10 @@ fn rt_case(ctx: &mut Ctx, c: &AvroCase) {
             if vals.len() != rows {
                 ctx.eval();
                 ctx.violation(
-                    &format!("C17|avro|apache|{fr}|row-count{null2}"),
+                    &match tag {
+                        Some(t) => format!("C17|avro|decode|failed|{t}"),
+                        None => "C17|avro|decode|row-count".to_string(),
+                    },
                     detail(&format!("apache-avro decodes {} rows, input has {rows}", vals.len())),
                 );
                 return;
@@ -1103,10 +1111,9 @@ fn rt_case(ctx: &mut Ctx, c: &AvroCase) {
                 if let Err((class, msg)) = apache_matches(&row_dt, &rv, av) {
                     ctx.eval();
                     ctx.violation(
-                        &if has_ree {
-                            "C17|avro|apache|value|REE".to_string()
-                        } else {
-                            format!("C17|avro|apache|{fr}|{class}|value{null2}")
+                        &match tag {
+                            Some(t) => format!("C17|avro|decode|failed|{t}"),
+                            None => format!("C17|avro|decode|value|{class}"),
                         },
                         detail(&format!("row {r}: {msg}")),
                     );
@@ -1121,7 +1128,18 @@ fn rt_case(ctx: &mut Ctx, c: &AvroCase) {
     // ---- arrow-avro reader
     let mut exp = expected(c);
     selftest_mutate("avro-rt", &mut exp);
-    let read = vcore::guard(|| read_avro(c, &w));
+    // arrow-avro's OCF reader can spin forever on a block with bytes left after its last
+    // record: the read runs under a watchdog (a timeout is inconclusive, never a verdict)
+    let (o2, w2) = (c.opts.clone(), w.clone());
+    let read = match with_watchdog(20, move || read_avro_with(&o2, &w2)) {
+        Some(Ok(r)) => Ok(r),
+        Some(Err(p)) => Err(p),
+        None => {
+            ctx.inconclusive("arrow-avro reader did not return within 20 s on arrow-avro's own output");
+            ctx.count("avro.read_timeout", 1);
+            return;
+        }
+    };
     let batches = match read {
         Err(p) => {
             if p.is_rejection() {
@@ -1131,8 +1149,8 @@ fn rt_case(ctx: &mut Ctx, c: &AvroCase) {
             ctx.eval();
             ctx.violation(
                 &match tag {
-                    Some(t) => format!("C17|avro|rt|read-failed|{t}"),
-                    None => format!("C17|avro|rt|{fr}|read-panic|{}|{}{null2}", p.file(), norm_msg(&p.msg)),
+                    Some(t) => format!("C17|avro|decode|failed|{t}"),
+                    None => format!("C17|avro|read|panic|{}|{}", p.file(), err_family(&p.msg)),
                 },
                 detail(&format!("reader panic: {} @ {}", p.msg, p.loc)),
             );
@@ -1156,8 +1174,8 @@ fn rt_case(ctx: &mut Ctx, c: &AvroCase) {
             ctx.eval();
             ctx.violation(
                 &match tag {
-                    Some(t) => format!("C17|avro|rt|read-failed|{t}"),
-                    None => format!("C17|avro|rt|{fr}|read-err|{}{null2}", norm_msg(&e)),
+                    Some(t) => format!("C17|avro|decode|failed|{t}"),
+                    None => format!("C17|avro|read|err|{}", err_family(&e)),
                 },
                 detail(&format!("reader error: {e}")),
             );
@@ -1169,15 +1187,15 @@ fn rt_case(ctx: &mut Ctx, c: &AvroCase) {
     ctx.count("avro.bytes", w.bytes.len() as u64);
     for b in &batches {
         if b.num_rows() > o.batch_size {
-            ctx.violation(&format!("C17|avro|rt|{fr}|batch-size"), detail(&format!("batch of {} rows", b.num_rows())));
+            ctx.violation("C17|avro|read|batch-size", detail(&format!("batch of {} rows", b.num_rows())));
             return;
         }
         if b.num_columns() != exp.len() {
-            ctx.violation(&format!("C17|avro|rt|{fr}|column-count"), detail(&format!("{} columns", b.num_columns())));
+            ctx.violation("C17|avro|read|column-count", detail(&format!("{} columns", b.num_columns())));
             return;
         }
         if let Err(e) = check_batch(b) {
-            ctx.violation(&format!("C17|avro|rt|{fr}|invalid-batch|{}", norm_msg(&e)), detail(&e));
+            ctx.violation(&format!("C17|avro|read|invalid-batch|{}", err_family(&e)), detail(&e));
             return;
         }
     }
@@ -1190,8 +1208,8 @@ fn rt_case(ctx: &mut Ctx, c: &AvroCase) {
         if let Some((row, leaf, kind)) = diff_col(&out_dt, e, &g) {
             ctx.violation(
                 &match tag {
-                    Some(t) => format!("C17|avro|rt|value|{t}"),
-                    None => format!("C17|avro|rt|{fr}|{leaf}|{kind}{null2}"),
+                    Some(t) => format!("C17|avro|decode|failed|{t}"),
+                    None => format!("C17|avro|decode|{kind}|{leaf}"),
                 },
                 detail(&format!(
                     "column {ci} ({in_dt} read as {out_dt}) row {row}: expected {:?} got {:?}",
@@ -1735,7 +1753,7 @@ pub fn run_ext(ctx: &mut Ctx, k: u64) {
         };
         let b2 = bytes.clone();
         let (bs, uv, st) = (c.batch_size, c.utf8_view, c.strict);
-        let read = vcore::guard(move || -> Result<Vec<RecordBatch>, String> {
+        let read = with_watchdog(20, move || -> Result<Vec<RecordBatch>, String> {
             let r = ReaderBuilder::new()
                 .with_batch_size(bs)
                 .with_utf8_view(uv)
@@ -1749,6 +1767,11 @@ pub fn run_ext(ctx: &mut Ctx, k: u64) {
             Ok(out)
         });
         let classes = c.fields.iter().map(|f| aty_class(&f.1)).collect::<Vec<_>>().join(",");
+        let Some(read) = read else {
+            ctx.inconclusive("arrow-avro reader did not return within 20 s on an apache-avro file");
+            ctx.count("avro.read_timeout", 1);
+            continue;
+        };
         let batches = match read {
             Err(p) => {
                 if p.is_rejection() {
@@ -1757,7 +1780,7 @@ pub fn run_ext(ctx: &mut Ctx, k: u64) {
                 }
                 ctx.eval();
                 ctx.violation(
-                    &format!("C17|avro|ext|read-panic|{}|{}", p.file(), norm_msg(&p.msg)),
+                    &format!("C17|avro|read|panic|{}|{}", p.file(), err_family(&p.msg)),
                     detail(format!("reader panic: {} @ {}", p.msg, p.loc)),
                 );
                 continue;
@@ -1769,7 +1792,7 @@ pub fn run_ext(ctx: &mut Ctx, k: u64) {
                     continue;
                 }
                 ctx.eval();
-                ctx.violation(&format!("C17|avro|ext|read-err|{}", norm_msg(&e)), detail(format!("reader error: {e}")));
+                ctx.violation(&format!("C17|avro|read|err|{}", err_family(&e)), detail(format!("reader error: {e}")));
                 continue;
             }
             Ok(Ok(b)) => b,
@@ -1778,12 +1801,12 @@ pub fn run_ext(ctx: &mut Ctx, k: u64) {
         let mut bad = false;
         for b in &batches {
             if let Err(e) = check_batch(b) {
-                ctx.violation(&format!("C17|avro|ext|invalid-batch|{}", norm_msg(&e)), detail(e));
+                ctx.violation(&format!("C17|avro|read|invalid-batch|{}", err_family(&e)), detail(e));
                 bad = true;
                 break;
             }
             if b.num_rows() > c.batch_size {
-                ctx.violation("C17|avro|ext|batch-size", detail(format!("batch of {} rows", b.num_rows())));
+                ctx.violation("C17|avro|read|batch-size", detail(format!("batch of {} rows", b.num_rows())));
                 bad = true;
                 break;
             }
@@ -1798,7 +1821,7 @@ pub fn run_ext(ctx: &mut Ctx, k: u64) {
         for (ci, (e, g)) in exp_cols.iter().zip(&got).enumerate() {
             let Some(s) = &out_schema else {
                 if !e.is_empty() {
-                    ctx.violation("C17|avro|ext|row-count", detail(format!("no rows decoded, {} written", e.len())));
+                    ctx.violation("C17|avro|decode|row-count", detail(format!("no rows decoded, {} written", e.len())));
                     bad = true;
                 }
                 break;
@@ -1809,7 +1832,7 @@ pub fn run_ext(ctx: &mut Ctx, k: u64) {
             let e = &e;
             if let Some((row, leaf, kind)) = diff_col(&out_dt, e, &g) {
                 ctx.violation(
-                    &format!("C17|avro|ext|{}|{leaf}|{kind}", aty_class(&c.fields[ci].1).split('<').next().unwrap_or("")),
+                    &format!("C17|avro|decode|{kind}|{leaf}"),
                     detail(format!(
                         "column {ci} ({:?} read as {out_dt}) row {row}: written {:?}, arrow-avro returned {:?}",
                         c.fields[ci].1,
